@@ -491,7 +491,11 @@ func (w *World) synthesise(fs *FuncSpec) error {
 			}
 			for _, f := range lt.Fields {
 				for j, c := range f.eq(r, "gq") {
-					dec.Ensures = append(dec.Ensures, mustClause("ensures", props, fmt.Sprintf("dec.%s.%d", f.Member, j), c))
+					pp := props
+					if f.Kind == "bin" && f.N == 16 {
+						pp += ",C15" // the 16-octet authenticators: their faithful transport is the end-to-end half of C15
+					}
+					dec.Ensures = append(dec.Ensures, mustClause("ensures", pp, fmt.Sprintf("dec.%s.%d", f.Member, j), c))
 				}
 			}
 			fs.Behaviors = append(fs.Behaviors, dec)
